@@ -3,6 +3,7 @@
 //! (independent parser + terminal store) is evaluated on them.
 use crate::util::*;
 use serde_json::{json, Value};
+use surf_n_term::image::{DummyImageHandler, ImageHandlerKind};
 use surf_n_term::{
     Image, ImageHandler, KittyImageHandler, Position, Size, Surface, SurfaceOwned, TerminalEvent, RGBA,
 };
@@ -117,7 +118,52 @@ fn cpos(p: (usize, usize)) -> String {
     format!("({}, {})", p.0, p.1)
 }
 
+fn kind_code(k: ImageHandlerKind) -> u8 {
+    match k {
+        ImageHandlerKind::Kitty => 0,
+        ImageHandlerKind::Sixel => 1,
+        ImageHandlerKind::Dummy => 2,
+    }
+}
+
+/// the small cases around the handler interface: ImageHandlerKind::from_str and ImageHandler::kind
+fn run_small(input: &Value) -> Option<Case> {
+    if let Some(s) = input["kind_str"].as_str() {
+        let s2 = s.to_string();
+        let r = catch(move || s2.parse::<ImageHandlerKind>().ok().map(kind_code));
+        let mut j = input.clone();
+        j["impl"] = json!(r);
+        let coq = match r {
+            Some(v) => format!("CaseKind {} {}", cbytes(s.as_bytes()), copt(v.map(|x| x.to_string()))),
+            None => format!("CaseKind {} (Some 99)", cbytes(s.as_bytes())), // a panic: never a valid answer
+        };
+        return Some(Case { coq, json: j, tags: vec!["kind-from-str".into()], nontrivial: false });
+    }
+    if let Some(d) = input["kind_of"].as_str() {
+        let dummy = d.starts_with("dummy");
+        let boxed = d.ends_with("boxed");
+        let k = match (dummy, boxed) {
+            (false, false) => KittyImageHandler::new().kind(),
+            (false, true) => (Box::new(KittyImageHandler::new()) as Box<dyn ImageHandler>).kind(),
+            (true, false) => DummyImageHandler.kind(),
+            (true, true) => (Box::new(DummyImageHandler) as Box<dyn ImageHandler>).kind(),
+        };
+        let mut j = input.clone();
+        j["impl"] = json!(kind_code(k));
+        return Some(Case {
+            coq: format!("CaseKindOf {} {}", cbool(dummy), kind_code(k)),
+            json: j,
+            tags: vec!["kind-of-handler".into()],
+            nontrivial: false,
+        });
+    }
+    None
+}
+
 pub fn run(input: &Value) -> Case {
+    if let Some(c) = run_small(input) {
+        return c;
+    }
     let quiet = input["quiet"].as_bool().unwrap_or(false);
     let descs: Vec<Value> = input["images"].as_array().cloned().unwrap_or_default();
     let built: Vec<(Image, (usize, usize, Vec<Px>))> = descs.iter().map(build).collect();
@@ -135,7 +181,14 @@ pub fn run(input: &Value) -> Case {
         cids.push(k);
     }
     let ops: Vec<Value> = input["ops"].as_array().cloned().unwrap_or_default();
-    let mut handler = if quiet { KittyImageHandler::new().quiet() } else { KittyImageHandler::new() };
+    // "via": "direct" (default) | "box" (Box<dyn ImageHandler>, the forwarding impl) | "dummy" (DummyImageHandler)
+    let via = input["via"].as_str().unwrap_or("direct").to_string();
+    let kitty = if quiet { KittyImageHandler::new().quiet() } else { KittyImageHandler::new() };
+    let mut handler: Box<dyn ImageHandler> = match via.as_str() {
+        "dummy" => Box::new(DummyImageHandler),
+        "box" => Box::new(Box::new(kitty) as Box<dyn ImageHandler>),
+        _ => Box::new(kitty),
+    };
     let mut coq_ops = vec![];
     let mut impl_out: Vec<(Vec<u8>, u8)> = vec![];
     let mut tags = vec![];
@@ -321,18 +374,23 @@ pub fn run(input: &Value) -> Case {
     if stopped {
         tags.push("panic".into());
     }
+    tags.push(format!("via={}", via));
     Case {
-        coq: format!(
-            "Case {} {} {} {} {}",
-            cbool(quiet),
-            imgs_coq,
-            contents_coq,
-            clist(coq_ops.into_iter()),
-            impl_coq
-        ),
+        coq: if via == "dummy" {
+            format!("CaseDummy {} {} {}", imgs_coq, clist(coq_ops.into_iter()), impl_coq)
+        } else {
+            format!(
+                "Case {} {} {} {} {}",
+                cbool(quiet),
+                imgs_coq,
+                contents_coq,
+                clist(coq_ops.into_iter()),
+                impl_coq
+            )
+        },
         json: j,
         tags,
-        nontrivial: n_draw >= 1 && (n_erase >= 1 || n_err >= 1 || repeat_draw) && maxpix >= 1,
+        nontrivial: via != "dummy" && n_draw >= 1 && (n_erase >= 1 || n_err >= 1 || repeat_draw) && maxpix >= 1,
     }
 }
 
@@ -437,7 +495,12 @@ fn gen_history(rng: &mut Rng, big: bool) -> Value {
             _ => ops.push(json!({"op":"other","which":rng.below(2)})),
         }
     }
-    json!({"quiet": rng.chance(1, 2), "images": images, "ops": ops})
+    let via = match rng.below(12) {
+        0 => "dummy",
+        1..=4 => "box",
+        _ => "direct",
+    };
+    json!({"quiet": rng.chance(1, 2), "images": images, "ops": ops, "via": via})
 }
 
 pub fn generate(rng: &mut Rng, n: usize, tier: &str) -> Vec<Value> {
@@ -461,6 +524,13 @@ pub fn generate(rng: &mut Rng, n: usize, tier: &str) -> Vec<Value> {
         "ops":[{"op":"draw","img":0,"pos":[5,7]},{"op":"resp","img":0,"pl":{"pos":[5,7]},"err":true},
                {"op":"draw","img":0,"pos":[5,7]},{"op":"resp","img":0,"pl":Value::Null,"err":true},
                {"op":"draw","img":0,"pos":[1,2]},{"op":"erase","img":0,"pos":[5,7]}]}));
+    // the handler interface: names of handler kinds in any letter case, near misses, kind() of each handler
+    for s in ["kitty", "KITTY", "Kitty", "sixel", "SiXeL", "dummy", "DUMMY", "", "kitt", "kittyy", " kitty", "k\u{0131}tty", "K\u{212A}itty", "none", "sixel\n"] {
+        v.push(json!({"kind_str": s}));
+    }
+    for d in ["kitty", "kitty-boxed", "dummy", "dummy-boxed"] {
+        v.push(json!({"kind_of": d}));
+    }
     // placement ids a terminal could report, incl. 0, 1, the largest id and values beyond 32 bits
     for raw in [0u64, 1, 2, 458758, 4294967295, 4294967296, u64::MAX] {
         v.push(json!({"quiet": true, "images":[{"h":2,"w":3,"seed":3,"style":0}],
